@@ -1,3 +1,110 @@
-From Coq Require Import QArith.
-Example C17_placeholder : (1 + 1 == 2)%Q.
-Proof. reflexivity. Qed.
+(* PROPERTY C17: for knot vectors U, V on the same interval, U | V is the common refinement (degree
+   max(p,q); each knot keeps the lower continuity order, i.e. the larger of the degree-lifted
+   multiplicities; per-knot maximum for equal degrees) and U & V the per-knot minimum multiplicity;
+   both commutative and idempotent, U|V refines U and V, different intervals raise ValueError.
+   Statements only; proofs in Proofs/UnionProofs.v and Proofs/KVProofs.v.
+   "separated" = distinct knots of the two operands are at least 1e-6 apart (the library identifies
+   closer knots; known finding K2). *)
+From Coq Require Import QArith Qabs List Bool Arith.
+From NurbsV Require Import Base.Res Base.QList Spec.KnotSpec Gen.Consts Model.KV.
+From NurbsV Require Import Proofs.KVProofs Proofs.UnionProofs.
+From NurbsV Require Check.C17.
+Import ListNotations.
+Open Scope Q_scope.
+
+Theorem C17_or_wf : forall a b k, kor a b = Ok k -> WF (kvec k) (kdeg k).
+Proof. exact kor_wf. Qed.
+Print Assumptions C17_or_wf.
+Theorem C17_and_wf : forall a b k, kand a b = Ok k -> WF (kvec k) (kdeg k).
+Proof. exact kand_wf. Qed.
+Print Assumptions C17_and_wf.
+
+(* different intervals are refused, and only they *)
+Theorem C17_or_different_limits : forall a b, limits_eqb a b = false -> kor a b = Err ValueError.
+Proof. exact kor_limits_err. Qed.
+Print Assumptions C17_or_different_limits.
+Theorem C17_and_different_limits : forall a b, limits_eqb a b = false -> kand a b = Err ValueError.
+Proof. exact kand_limits_err. Qed.
+Print Assumptions C17_and_different_limits.
+Theorem C17_or_succeeds : forall a b,
+  WF (kvec a) (kdeg a) -> WF (kvec b) (kdeg b) -> separated (kvec a ++ kvec b) ->
+  limits_eqb a b = true -> exists k, kor a b = Ok k.
+Proof. exact kor_succeeds. Qed.
+Print Assumptions C17_or_succeeds.
+Theorem C17_and_succeeds : forall a b,
+  WF (kvec a) (kdeg a) -> WF (kvec b) (kdeg b) -> separated (kvec a ++ kvec b) ->
+  limits_eqb a b = true -> exists k, kand a b = Ok k /\ kdeg k = Nat.min (kdeg a) (kdeg b).
+Proof. exact kand_succeeds. Qed.
+Print Assumptions C17_and_succeeds.
+
+(* the multiplicity law of the union, every value x *)
+Theorem C17_or_multiplicity : forall a b k,
+  separated (kvec a ++ kvec b) -> kor a b = Ok k ->
+  forall x, count_q x (kvec k) =
+            Nat.max (lift (Nat.max (kdeg a) (kdeg b)) (kdeg a) x (kvec a))
+                    (lift (Nat.max (kdeg a) (kdeg b)) (kdeg b) x (kvec b)).
+Proof. exact kor_mult_law. Qed.
+Print Assumptions C17_or_multiplicity.
+Theorem C17_or_degree : forall a b k,
+  WF (kvec a) (kdeg a) -> WF (kvec b) (kdeg b) -> separated (kvec a ++ kvec b) ->
+  kor a b = Ok k -> kdeg k = Nat.max (kdeg a) (kdeg b).
+Proof. exact kor_degree. Qed.
+Print Assumptions C17_or_degree.
+
+(* U|V refines both operands and introduces no new knot *)
+Theorem C17_or_refines_left : forall a b k,
+  separated (kvec a ++ kvec b) -> kor a b = Ok k ->
+  forall x, (lift (Nat.max (kdeg a) (kdeg b)) (kdeg a) x (kvec a) <= count_q x (kvec k)
+            /\ count_q x (kvec a) <= count_q x (kvec k))%nat.
+Proof. exact kor_refines_left. Qed.
+Print Assumptions C17_or_refines_left.
+Theorem C17_or_refines_right : forall a b k,
+  separated (kvec a ++ kvec b) -> kor a b = Ok k ->
+  forall x, (lift (Nat.max (kdeg a) (kdeg b)) (kdeg b) x (kvec b) <= count_q x (kvec k)
+            /\ count_q x (kvec b) <= count_q x (kvec k))%nat.
+Proof. exact kor_refines_right. Qed.
+Print Assumptions C17_or_refines_right.
+Theorem C17_or_no_new_knots : forall a b k,
+  separated (kvec a ++ kvec b) -> kor a b = Ok k ->
+  forall x, (0 < count_q x (kvec k) -> 0 < count_q x (kvec a) \/ 0 < count_q x (kvec b))%nat.
+Proof. exact kor_no_new_knots. Qed.
+Print Assumptions C17_or_no_new_knots.
+
+(* commutative, idempotent *)
+Theorem C17_or_commutative : forall a b k k',
+  separated (kvec a ++ kvec b) -> kor a b = Ok k -> kor b a = Ok k' ->
+  forall x, count_q x (kvec k') = count_q x (kvec k).
+Proof. exact kor_comm_mult. Qed.
+Print Assumptions C17_or_commutative.
+Theorem C17_or_idempotent : forall a k,
+  separated (kvec a) -> kor a a = Ok k -> forall x, count_q x (kvec k) = count_q x (kvec a).
+Proof. exact kor_idem_mult. Qed.
+Print Assumptions C17_or_idempotent.
+
+(* intersection: per-knot minimum multiplicity (for any degrees), degree min *)
+Theorem C17_and_multiplicity : forall a b k,
+  WF (kvec a) (kdeg a) -> WF (kvec b) (kdeg b) -> separated (kvec a ++ kvec b) ->
+  kand a b = Ok k ->
+  forall x, count_q x (kvec k) = Nat.min (count_q x (kvec a)) (count_q x (kvec b)).
+Proof. exact kand_mult_law. Qed.
+Print Assumptions C17_and_multiplicity.
+Theorem C17_and_commutative : forall a b k k',
+  WF (kvec a) (kdeg a) -> WF (kvec b) (kdeg b) -> separated (kvec a ++ kvec b) ->
+  kand a b = Ok k -> kand b a = Ok k' ->
+  (forall x, count_q x (kvec k') = count_q x (kvec k)) /\ kdeg k' = kdeg k.
+Proof. exact kand_comm_mult. Qed.
+Print Assumptions C17_and_commutative.
+
+(* the model's result IS the closed form the implementation is compared with in Check/C17.v *)
+Theorem C17_or_is_closed_form : forall a b k,
+  WF (kvec a) (kdeg a) -> WF (kvec b) (kdeg b) -> separated (kvec a ++ kvec b) ->
+  kor a b = Ok k ->
+  C17.view_eqb (kvec k, kdeg k) (C17.spec_or (kvec a) (kdeg a) (kvec b) (kdeg b)) = true.
+Proof. exact kor_matches_spec. Qed.
+Print Assumptions C17_or_is_closed_form.
+
+(* non-vacuity *)
+Example C17_nonvacuous :
+  WF (kvec ex_a) (kdeg ex_a) /\ WF (kvec ex_b) (kdeg ex_b) /\ separated (kvec ex_a ++ kvec ex_b)
+  /\ limits_eqb ex_a ex_b = true.
+Proof. exact (conj ex_wf_a (conj ex_wf_b (conj ex_separated ex_limits))). Qed.
